@@ -6,6 +6,7 @@
 #define RXV_SPEC_ISA_H
 #include <stdint.h>
 #include <stdbool.h>
+#include <math.h>
 
 enum spec_kind {
 	S_IADD_RS, S_IADD_M, S_ISUB_R, S_ISUB_M, S_IMUL_R, S_IMUL_M, S_IMULH_R, S_IMULH_M, S_ISMULH_R, S_ISMULH_M,
@@ -99,5 +100,162 @@ static inline bool spec_modifies(int kind, uint8_t dst, uint8_t src, uint32_t im
 
 static inline uint64_t spec_rotr64(uint64_t x, unsigned c) { c &= 63; return c ? (x >> c) | (x << (64 - c)) : x; }
 static inline uint64_t spec_rotl64(uint64_t x, unsigned c) { c &= 63; return c ? (x << c) | (x >> (64 - c)) : x; }
+
+
+/* ---------------------------------------------------------------------------------------------
+   One instruction step on an abstract machine state (chapters 4.3, 5.2-5.5).
+   FP arithmetic is the host's IEEE-754 double arithmetic under the current rounding mode (shared with
+   the implementation side in the proof); sqrt / 128-bit products / reciprocal go through the
+   SPEC_SQRT / SPEC_MULH / SPEC_SMULH / SPEC_RCP hooks so that both sides use the same abstract operation. */
+typedef struct { double lo, hi; } spec_f2;
+typedef struct {
+	uint64_t r[8];
+	spec_f2 f[4], e[4], a[4];
+	unsigned fprc;        /* 2-bit rounding mode register */
+	int pc;               /* index of the instruction being executed */
+	/* ISTORE effect */
+	bool stored; uint32_t store_addr; uint64_t store_val;
+} spec_state;
+
+/* little-endian memory reads; a proof may route them through an abstract memory (SPEC_LOAD64/32 hooks) */
+#ifndef SPEC_LOAD64
+#define SPEC_LOAD64(sp, addr) spec_load64_bytes(sp, addr)
+#define SPEC_LOAD32(sp, addr) spec_load32_bytes(sp, addr)
+#endif
+static inline uint64_t spec_load64_bytes(const uint8_t* sp, uint32_t addr) {
+	uint64_t v = 0;
+	for (int k = 7; k >= 0; k--) v = (v << 8) | sp[addr + k];
+	return v;
+}
+static inline uint32_t spec_load32_bytes(const uint8_t* sp, uint32_t addr) {
+	uint32_t v = 0;
+	for (int k = 3; k >= 0; k--) v = (v << 8) | sp[addr + k];
+	return v;
+}
+static inline uint64_t spec_d2u(double d) { union { double d; uint64_t u; } x; x.d = d; return x.u; }
+static inline double spec_u2d(uint64_t u) { union { double d; uint64_t u; } x; x.u = u; return x.d; }
+static inline int32_t spec_s32(uint32_t x) { return (x & 0x80000000u) ? (int32_t)(-(int64_t)(0x100000000ULL - x)) : (int32_t)x; }
+
+/* 4.3.1 */
+static inline spec_f2 spec_cvt_f2(uint32_t lo32, uint32_t hi32) {
+	spec_f2 x;
+	x.lo = (double)spec_s32(lo32);
+	x.hi = (double)spec_s32(hi32);
+	return x;
+}
+static inline spec_f2 spec_cvt_f(uint64_t mem) { return spec_cvt_f2((uint32_t)mem, (uint32_t)(mem >> 32)); }
+/* 4.3.2; m4 = exponent mask (4 bits), frac22 = fraction mask (22 bits) of the respective half */
+static inline double spec_cvt_e1(double v, unsigned m4, uint32_t frac22) {
+	uint64_t b = spec_d2u(v);
+	uint64_t expo = (b >> 52) & 0x7ff, frac = b & ((1ULL << 52) - 1);
+	expo = (expo & 0x00f) | 0x300 | ((uint64_t)(m4 & 15) << 4);  /* top three bits 011, next four = exponent mask */
+	frac = (frac & ~0x3fffffULL) | (frac22 & 0x3fffff);
+	return spec_u2d((expo << 52) | frac);                           /* sign bit 0 */
+}
+static inline spec_f2 spec_cvt_e2(spec_f2 x, const unsigned m4[2], const uint32_t frac22[2]) {
+	x.lo = spec_cvt_e1(x.lo, m4[0], frac22[0]);
+	x.hi = spec_cvt_e1(x.hi, m4[1], frac22[1]);
+	return x;
+}
+static inline spec_f2 spec_cvt_e(uint64_t mem, const unsigned m4[2], const uint32_t frac22[2]) {
+	spec_f2 x = spec_cvt_f(mem);
+	x.lo = spec_cvt_e1(x.lo, m4[0], frac22[0]);
+	x.hi = spec_cvt_e1(x.hi, m4[1], frac22[1]);
+	return x;
+}
+
+#ifndef SPEC_SQRT
+#define SPEC_SQRT(x) sqrt(x)
+#endif
+#ifndef SPEC_FADD
+#define SPEC_FADD(a, b) ((a) + (b))
+#define SPEC_FSUB(a, b) ((a) - (b))
+#define SPEC_FMUL(a, b) ((a) * (b))
+#define SPEC_FDIV(a, b) ((a) / (b))
+#endif
+#ifndef SPEC_MULH
+#define SPEC_MULH(a, b) ((uint64_t)(((unsigned __int128)(a) * (b)) >> 64))
+#endif
+#ifndef SPEC_SMULH
+#define SPEC_SMULH(a, b) ((uint64_t)(((__int128)(int64_t)(a) * (int64_t)(b)) >> 64))
+#endif
+#ifndef SPEC_MUL64
+#define SPEC_MUL64(a, b) ((uint64_t)(a) * (uint64_t)(b))
+#endif
+#ifndef SPEC_RCP
+#define SPEC_RCP(d) spec_rcp(d)
+static inline uint64_t spec_rcp(uint32_t d) {
+	int bl = 0; for (uint32_t t = d; t; t >>= 1) bl++;
+	return (uint64_t)((((unsigned __int128)1) << (63 + bl)) / d);
+}
+#endif
+
+/* lw = index of the instruction that last modified register dst (-1 if none) - only used by CBRANCH */
+/* k must equal spec_kind_of(opcode); it is a separate parameter so that a caller that fixes the kind gets a specialised step */
+static inline void spec_step_k(spec_state* st, const uint8_t* sp, int k, uint8_t dst, uint8_t src, uint8_t mod,
+		uint32_t imm32, int lw, bool v2, const unsigned m4[2], const uint32_t frac22[2]) {
+	int d = dst & 7, s = src & 7, df = dst & 3, sf = src & 3;
+	uint64_t simm = spec_sext32(imm32);
+	st->stored = false;
+	uint64_t srcv = st->r[s];
+	if (spec_is_int_mem(k)) {
+		uint64_t base = (d == s) ? 0 : st->r[s];
+		srcv = SPEC_LOAD64(sp, (uint32_t)(base + simm) & spec_read_mask(dst, src, mod, true));
+	} else if (spec_src_imm_if_same(k) && d == s) {
+		srcv = simm;
+	}
+	spec_f2 fm = { 0.0, 0.0 };
+	if (spec_is_fp_mem(k)) {
+		/* the 8-byte operand is a pair of little-endian 32-bit integers: low half first */
+		uint32_t fa = (uint32_t)(st->r[s] + simm) & spec_read_mask(dst, src, mod, false);
+		fm = spec_cvt_f2(SPEC_LOAD32(sp, fa), SPEC_LOAD32(sp, fa + 4));
+	}
+	switch (k) {
+	case S_IADD_RS: st->r[d] += (st->r[s] << spec_mod_shift(mod)) + (d == 5 ? simm : 0); break;
+	case S_IADD_M: st->r[d] += srcv; break;
+	case S_ISUB_R: case S_ISUB_M: st->r[d] -= srcv; break;
+	case S_IMUL_R: case S_IMUL_M: st->r[d] = SPEC_MUL64(st->r[d], srcv); break;
+	case S_IMULH_R: case S_IMULH_M: st->r[d] = SPEC_MULH(st->r[d], srcv); break;
+	case S_ISMULH_R: case S_ISMULH_M: st->r[d] = SPEC_SMULH(st->r[d], srcv); break;
+	case S_IMUL_RCP: if (!spec_zero_or_pow2(imm32)) st->r[d] = SPEC_MUL64(st->r[d], SPEC_RCP(imm32)); break;
+	case S_INEG_R: st->r[d] = 0 - st->r[d]; break;
+	case S_IXOR_R: case S_IXOR_M: st->r[d] ^= srcv; break;
+	case S_IROR_R: st->r[d] = spec_rotr64(st->r[d], (unsigned)(srcv & 63)); break;
+	case S_IROL_R: st->r[d] = spec_rotl64(st->r[d], (unsigned)(srcv & 63)); break;
+	case S_ISWAP_R: if (d != s) { uint64_t t = st->r[s]; st->r[s] = st->r[d]; st->r[d] = t; } break;
+	case S_FSWAP_R: {
+		spec_f2* x = d < 4 ? &st->f[d] : &st->e[d - 4];
+		double t = x->lo; x->lo = x->hi; x->hi = t; break; }
+	case S_FADD_R: st->f[df].lo = SPEC_FADD(st->f[df].lo, st->a[sf].lo); st->f[df].hi = SPEC_FADD(st->f[df].hi, st->a[sf].hi); break;
+	case S_FADD_M: st->f[df].lo = SPEC_FADD(st->f[df].lo, fm.lo); st->f[df].hi = SPEC_FADD(st->f[df].hi, fm.hi); break;
+	case S_FSUB_R: st->f[df].lo = SPEC_FSUB(st->f[df].lo, st->a[sf].lo); st->f[df].hi = SPEC_FSUB(st->f[df].hi, st->a[sf].hi); break;
+	case S_FSUB_M: st->f[df].lo = SPEC_FSUB(st->f[df].lo, fm.lo); st->f[df].hi = SPEC_FSUB(st->f[df].hi, fm.hi); break;
+	case S_FSCAL_R:
+		st->f[df].lo = spec_u2d(spec_d2u(st->f[df].lo) ^ 0x80F0000000000000ULL);
+		st->f[df].hi = spec_u2d(spec_d2u(st->f[df].hi) ^ 0x80F0000000000000ULL); break;
+	case S_FMUL_R: st->e[df].lo = SPEC_FMUL(st->e[df].lo, st->a[sf].lo); st->e[df].hi = SPEC_FMUL(st->e[df].hi, st->a[sf].hi); break;
+	case S_FDIV_M: { spec_f2 m = spec_cvt_e2(fm, m4, frac22); st->e[df].lo = SPEC_FDIV(st->e[df].lo, m.lo); st->e[df].hi = SPEC_FDIV(st->e[df].hi, m.hi); break; }
+	case S_FSQRT_R: st->e[df].lo = SPEC_SQRT(st->e[df].lo); st->e[df].hi = SPEC_SQRT(st->e[df].hi); break;
+	case S_CBRANCH:
+		st->r[d] += spec_cimm(imm32, mod);
+		if ((st->r[d] & spec_cbranch_mask(mod)) == 0) st->pc = lw;   /* execution continues at lw + 1 */
+		break;
+	case S_CFROUND: {
+		uint64_t v = spec_rotr64(st->r[s], imm32 & 63);
+		if (!v2 || ((v >> 2) & 15) == 0) st->fprc = (unsigned)(v & 3);
+		break; }
+	case S_ISTORE:
+		st->stored = true;
+		st->store_addr = (uint32_t)(st->r[d] + simm) & spec_write_mask(mod);
+		st->store_val = st->r[s];
+		break;
+	default: break;
+	}
+}
+
+static inline void spec_step(spec_state* st, const uint8_t* sp, uint8_t opcode, uint8_t dst, uint8_t src, uint8_t mod,
+		uint32_t imm32, int lw, bool v2, const unsigned m4[2], const uint32_t frac22[2]) {
+	spec_step_k(st, sp, spec_kind_of(opcode), dst, src, mod, imm32, lw, v2, m4, frac22);
+}
 
 #endif
